@@ -25,6 +25,12 @@ type c20Case struct {
 	RecoverNs int64  `json:"recover_ns"`
 	Mock      bool   `json:"mock"`
 	Outs      string `json:"outs"`    // one of O E P per call
+	// burst scenarios: after the burst wait this long (the recovery time passes), then let one forwarded call fail, then probe
+	AfterSleepMs int  `json:"after_sleep_ms,omitempty"`
+	AfterFail    bool `json:"after_fail,omitempty"`
+	// Held: one more call passes the breaker's invoke stage while the breaker is closed and is held there until the burst
+	// has tripped it; it then reaches the IO stage of an OPEN breaker: it must be answered like any rejected call
+	Held bool `json:"held,omitempty"`
 	Ctxs      string `json:"ctxs"`    // per call: b (or absent) = background context, c = already cancelled, d = deadline already passed
 	GapsUs    []int  `json:"gaps_us"` // optional sleep before call k
 	// concurrent scenario: steps ["start",k,"O|E|P"], ["release",k], ["sleep",us], ["probe","O|E|P"]
@@ -59,6 +65,8 @@ type c20Obs struct {
 	BurstForwarded int       `json:"burst_forwarded,omitempty"`
 	BurstRejected  int       `json:"burst_rejected,omitempty"`
 	BurstOther     int       `json:"burst_other,omitempty"`
+	HeldBad        int       `json:"held_bad,omitempty"`
+	HeldExample    string    `json:"held_example,omitempty"`
 	ID             int       `json:"id"`
 	Calls          []c20Call `json:"calls"`
 	Steps          []c20Step `json:"steps,omitempty"`
@@ -83,6 +91,7 @@ func c20Run(line []byte, out *json.Encoder) error {
 		}
 		if c.Burst > 0 {
 			obs.BurstForwarded, obs.BurstRejected, obs.BurstOther = runBurst(c, opts)
+			obs.HeldBad, obs.HeldExample = heldBad, heldExample
 			return out.Encode(&obs)
 		}
 		cb := circuitbreaker.New(opts...)
@@ -286,7 +295,11 @@ func runScript(c c20Case, cb *circuitbreaker.CircuitBreaker) []c20Step {
 }
 
 // runBurst: see c20Case.Burst.
+var heldBad int
+var heldExample string
+
 func runBurst(c c20Case, opts []circuitbreaker.Option) (forwarded, rejected, other int) {
+	heldBad, heldExample = 0, ""
 	for round := 0; round < c.Rounds; round++ {
 		cb := circuitbreaker.New(opts...)
 		client := core.NewClient("mock://c20")
@@ -311,7 +324,36 @@ func runBurst(c c20Case, opts []circuitbreaker.Option) (forwarded, rejected, oth
 			return nil, errors.New("down")
 		}
 		client.Use(cb)
+		holdGate := make(chan struct{})
+		heldIn := make(chan struct{}, 1)
+		if c.Held {
+			client.Use(core.InvokeHandler(func(ctx context.Context, name string, args []interface{}, next core.NextInvokeHandler) ([]interface{}, error) {
+				if name == "held" {
+					heldIn <- struct{}{}
+					<-holdGate
+				}
+				return next(ctx, name, args)
+			}))
+		}
 		client.Use(core.IOHandler(scripted))
+		heldDone := make(chan string, 1)
+		if c.Held {
+			go func() {
+				res, err := client.Invoke("held", nil)
+				switch {
+				case err == circuitbreaker.ErrBreaker:
+					heldDone <- "B"
+				case err == nil && len(res) == 1 && res[0] == "mock":
+					heldDone <- "M"
+				default:
+					heldDone <- fmt.Sprintf("?res=%v err=%v", res, err)
+				}
+			}()
+			select {
+			case <-heldIn:
+			case <-time.After(3 * time.Second):
+			}
+		}
 		var wg sync.WaitGroup
 		for i := 0; i < c.Burst; i++ {
 			wg.Add(1)
@@ -330,6 +372,29 @@ func runBurst(c c20Case, opts []circuitbreaker.Option) (forwarded, rejected, oth
 		if !entered {
 			other++
 			continue
+		}
+		if c.Held {
+			close(holdGate)
+			select {
+			case r := <-heldDone:
+				want := "B"
+				if c.Mock {
+					want = "M"
+				}
+				if r != want {
+					heldBad++
+					heldExample = r
+				}
+			case <-time.After(3 * time.Second):
+				heldBad++
+				heldExample = "never returned"
+			}
+		}
+		if c.AfterSleepMs > 0 {
+			time.Sleep(time.Duration(c.AfterSleepMs) * time.Millisecond)
+		}
+		if c.AfterFail {
+			_, _ = client.Invoke("f", nil) // the trial call of the half-open state: forwarded, fails downstream
 		}
 		atomic.StoreInt32(&probe, 1)
 		_, err := client.Invoke("f", nil)
